@@ -266,6 +266,10 @@ impl Recv {
                 .pending_recv
                 .push_back(&mut self.buffer, Event::Headers(message));
             stream.notify_recv();
+            if stream.state.is_recv_end_stream() {
+                // No more push promises can arrive on this stream.
+                stream.notify_push();
+            }
 
             // Only servers can receive a headers frame that initiates the stream.
             // This is verified in `Streams` before calling this function.
@@ -436,6 +440,8 @@ impl Recv {
             .pending_recv
             .push_back(&mut self.buffer, Event::Trailers(trailers));
         stream.notify_recv();
+        // No more push promises can arrive on this stream.
+        stream.notify_push();
 
         Ok(())
     }
@@ -778,6 +784,10 @@ impl Recv {
         // Push the frame onto the recv buffer
         stream.pending_recv.push_back(&mut self.buffer, event);
         stream.notify_recv();
+        if stream.state.is_recv_end_stream() {
+            // No more push promises can arrive on this stream.
+            stream.notify_push();
+        }
 
         Ok(())
     }
